@@ -128,7 +128,7 @@ func (m *MessageServerKeyExchange) Unmarshal(data []byte) error { //nolint:cyclo
 
 	// Anon connection doesn't contains hashAlgorithm, signatureAlgorithm, signature
 	if len(data) == offset {
-		return nil
+		return m.requirePublicKey()
 	} else if len(data) <= offset+1 {
 		return dtlserrors.ErrBufferTooSmall
 	}
@@ -153,7 +153,21 @@ func (m *MessageServerKeyExchange) Unmarshal(data []byte) error { //nolint:cyclo
 	if len(data) < offset+signatureLength {
 		return dtlserrors.ErrBufferTooSmall
 	}
+	// Marshal refuses a signature scheme without a signature.
+	if signatureLength == 0 {
+		return dtlserrors.ErrInvalidSignHashAlgorithm
+	}
 	m.Signature = bytes.Clone(data[offset : offset+signatureLength])
+
+	return m.requirePublicKey()
+}
+
+// requirePublicKey refuses ECDHE parameters without a public key: Marshal omits
+// the parameters of such a message, so it would have no encoding.
+func (m *MessageServerKeyExchange) requirePublicKey() error {
+	if len(m.PublicKey) == 0 {
+		return dtlserrors.ErrLengthMismatch
+	}
 
 	return nil
 }
